@@ -39,6 +39,13 @@ def gen_cases(tier, seed):
         if q < 0.04:
             out.append({"seed": s, "mode": "observer_fault", "members": r.choice([1, 2, 3]), "compose": r.choice(["tuple", "flat", "nested"]), "W": 1, "sched": "default", "n": 2})
             continue
+        if q < 0.055:
+            # a user callback other than a plan function fails: an observer notification, the retry decorator, transform_physical
+            out.append({"seed": s, "mode": "callback_fault", "n": r.randint(1, 14), "W": r.choice([1, 2, 4, 8]), "sched": r.choice(["default", "random"]),
+                        "where": r.choice(["obs_total", "obs_running", "obs_completed", "obs_failed", "retry_wrap", "retry_call", "transform_raise", "transform_none"]),
+                        "j": r.choice([1, 1, 2, 3, 5]), "kind": r.choice(["exc", "exc", "base"]), "cfg": {"out": r.choice(["all", "sinks"])},
+                        "max_errors": r.choice([0, 0, 2, None])})
+            continue
         if q < 0.07:
             # the operating system refuses a new thread / the caller is interrupted inside Thread.start(): run must still end and leave nothing behind
             out.append({"seed": s, "mode": "thread_start_fault", "n": r.randint(1, 12), "W": r.choice([1, 2, 3, 4, 8]), "sched": r.choice(["default", "random"]),
@@ -169,6 +176,100 @@ def run_thread_start_fault(desc):
     return res
 
 
+def run_callback_fault(desc):
+    """The j-th call of one user callback raises (Exception or BaseException): a progress-observer notification, the retry decorator
+    (while wrapping or while calling), transform_physical. Whatever run raises, it must end, nothing may still be executing or start later,
+    and every thread it created must exit."""
+    from vmon import recobserver
+
+    where, j, kind = desc["where"], desc["j"], desc["kind"]
+    state = {"n": 0, "fired": False}
+
+    def boom(tag):
+        state["n"] += 1
+        if state["n"] == j and not state["fired"]:
+            state["fired"] = True
+            raise (rec.InjectedBase if kind == "base" else rec.InjectedError)(f"{tag} failed (call #{j})")
+
+    class FaultyObs(recobserver.RecObserver):
+        def increment_total(self_, **kw):
+            recobserver.RecObserver.increment_total(self_, **kw)
+            if where == "obs_total":
+                boom("increment_total")
+
+        def increment_running(self_, **kw):
+            recobserver.RecObserver.increment_running(self_, **kw)
+            if where == "obs_running":
+                boom("increment_running")
+
+        def increment_completed(self_, **kw):
+            recobserver.RecObserver.increment_completed(self_, **kw)
+            if where == "obs_completed":
+                boom("increment_completed")
+
+        def increment_failed(self_, **kw):
+            recobserver.RecObserver.increment_failed(self_, **kw)
+            if where == "obs_failed":
+                boom("increment_failed")
+
+    xkw = {}
+    d = dict(desc)
+    if where.startswith("obs_"):
+        obs = FaultyObs()
+        progress = obs.progress()
+        if where == "obs_failed":
+            d["faults"] = {"p": 0.5, "kinds": ["exc"]}
+    else:
+        progress = None
+    if where in ("retry_wrap", "retry_call"):
+        def retry(f):
+            if where == "retry_wrap":
+                boom("retry decorator (wrapping)")
+
+            def wrapper(*a, **k):
+                if where == "retry_call":
+                    boom("retry decorator (calling)")
+                return f(*a, **k)
+            return wrapper
+        d["retry"] = retry
+    if where == "transform_raise":
+        def tp(p, o):
+            state["n"] = j - 1
+            boom("transform_physical")
+        xkw["transform_physical"] = tp
+    elif where == "transform_none":
+        xkw["transform_physical"] = lambda p, o: None  # garbage instead of (plan, node)
+        state["fired"] = True
+    W = Watch(desc)
+    with W:
+        R = plainrun.execute(d, record_args=False, hang_watch=False, progress=progress, extra_run_kwargs=xkw)
+    H = R.H
+    bad = None
+    if R.in_flight_at_return:
+        bad = f"{R.in_flight_at_return} of the plan's functions still executing when run returned/raised"
+    else:
+        leaked = [t for t in R.leaked if t.is_alive()]
+        deadline = time.monotonic() + 5
+        while leaked and time.monotonic() < deadline:
+            time.sleep(0.02)
+            leaked = [t for t in leaked if t.is_alive()]
+        if leaked:
+            bad = f"thread(s) created by run still alive after it returned/raised ({R.exc!r}): {[t.name for t in leaked]}"
+        elif H.seq != R.seq_at_return:
+            bad = f"{H.seq - R.seq_at_return} event(s) were stamped after run returned/raised"
+    if bad is None and state["fired"] and R.exc is None:
+        bad = f"the failing callback ({where}) was swallowed: run returned normally"
+    res = {"status": "ok", "counters": {"callback_fault_runs": 1, "callback_faults_fired": int(state["fired"]), "thread_census_checks": 1},
+           "sets": {"callback_fault_outcomes": [f"{where}/{kind}->{type(R.exc).__name__}"]}, "nontrivial": state["fired"],
+           "sig": hashlib.sha1(("\n".join(R.ir.describe(60)) + f"|cbf|{desc['W']}|{where}|{j}|{kind}").encode()).hexdigest()[:16]}
+    if bad:
+        res.update(status="violation", detail=f"[{where} #{j} raises {kind}, W={desc['W']}] {bad}", mechanism="leftover-activity", taint=True,
+                   witness={"plan": R.ir.describe(60), "history": H.compact_history(200)})
+    if W.drv.error:
+        return {"status": "inconclusive", "detail": "deadlock watch error: " + W.drv.error}
+    return res
+
+
 def run_registry_fault(desc):
     from vmon import history, regmodel
 
@@ -236,6 +337,8 @@ def run_case(desc):
         return run_registry_fault(desc)
     if desc["mode"] == "thread_start_fault":
         return run_thread_start_fault(desc)
+    if desc["mode"] == "callback_fault":
+        return run_callback_fault(desc)
     usable = quiesce.available()
     W = Watch(desc)
     with W:
